@@ -47,6 +47,11 @@ def configs(tier, seed):
         if sc == 1 and bi == 0:
             continue
         out.append(dict(part='infer', signed=rng.choice((True, False, None)), scale=sc, bias=bi, f0=0, carrier='int'))
+    # objects derived from a scaled array without a store (element view, flatten, transpose) and then re-formatted
+    for (s, n, f) in C.pick([q for q in fm if q[1] >= 2 and q[2] >= 0], 10 if tier == 'quick' else 60, rng):
+        for how in ('index', 'flatten', 'T', 'like_kw'):
+            sc, bi = rng.choice([2.0, 0.5, 4, -0.5]), rng.choice(BIASES)
+            out.append(dict(part='derived', how=how, signed=s, n_word=n, n_frac=f, scale=sc, bias=bi))
     for (s, n, f) in C.pick(fm, 12 if tier == 'quick' else len(fm), rng):
         sc, bi = rng.choice([x for x in SCALES if x != 1]), rng.choice(BIASES)
         out.append(dict(part='rawwrite', signed=s, n_word=n, n_frac=f, scale=sc, bias=bi))
@@ -78,6 +83,8 @@ def inputs(cfg):
     lo, hi = SP.limits(s, n)
     if cfg['part'] == 'rawwrite':
         return {'c': dict(kind='int', lo=lo, hi=hi)}
+    if cfg['part'] == 'derived':
+        return {'c0': dict(kind='int', lo=lo, hi=hi), 'c1': dict(kind='int', lo=lo, hi=hi)}
     span = (hi - lo + 1)
     m = (3 * span) << G
     return {'t': dict(kind='float', lo=-m, hi=m, exp=-(f + G))}
@@ -119,6 +126,13 @@ def run(F, cfg, inp):
         x = F.Fxp(v, scale=sc, bias=bi, **kw)
         return dict(val=O.snap(x.val), value=O.snap(x.get_val()), fmt=C.fmt_of(x), status={k: bool(v_) for k, v_ in x.status.items()})
     s, n, f = cfg['signed'], cfg['n_word'], cfg['n_frac']
+    if cfg['part'] == 'derived':
+        x = F.Fxp([0, 0], s, n, f, scale=sc, bias=bi)
+        x.set_val(C.mk_array(F, 'int64' if s else 'uint64', [inp['c0'], inp['c1']]), raw=True)
+        h = cfg['how']
+        d = x[1] if h == 'index' else x.flatten() if h == 'flatten' else x.T if h == 'T' else F.Fxp(x, like=x)
+        d.resize(n_word=n + 3, n_frac=f + 1)
+        return dict(val=O.snap(d.val), value=O.snap(d.get_val()), fmt=C.fmt_of(d), precision=d.precision, upper=d.upper)
     if cfg['part'] == 'rawwrite':
         # a code written directly (raw=True) is still read through the affine map, and a later resize keeps the mapped limits
         x = F.Fxp(None, s, n, f, scale=sc, bias=bi)
@@ -158,6 +172,19 @@ def post(cfg, inp, ob):
     sc, bi = cfg['scale'], cfg['bias']
     code = O.cells(ob['val'])[0]
     rd = O.cells(ob['value'])[0]
+    if cfg['part'] == 'derived':
+        s, n, f = cfg['signed'], cfg['n_word'], cfg['n_frac']
+        cs = [inp['c1']] if cfg['how'] == 'index' else [inp['c0'], inp['c1']]
+        codes, reads = O.cells(ob['val']), O.cells(ob['value'])
+        S, B = _fr(sc), _fr(bi)
+        lo2, hi2 = SP.limits(s, n + 3)
+        out = [('format', ob['fmt'] == [s, n + 3, f + 1]), ('n_cells', len(codes) == len(cs)),
+               ('precision_mapped_through_scale_only', _fr(ob['precision']) == S * Fraction(1, 1 << (f + 1))),
+               ('upper_mapped', _fr(ob['upper']) == S * hi2 * Fraction(1, 1 << (f + 1)) + B)]
+        for i, (cd, rd_, c) in enumerate(zip(codes, reads, cs)):
+            out.append(('code_kept_%d' % i, T.icmp(cd, T.ishl(c, 1), '==')))
+            out.append(('read_back_is_affine_image_%d' % i, SP.dy_eq(SP.dy(rd_), _affine(c, f, sc, bi))))
+        return out
     if cfg['part'] == 'rawwrite':
         s, n, f = cfg['signed'], cfg['n_word'], cfg['n_frac']
         c = inp['c']
